@@ -82,7 +82,13 @@ def jvp_defined(tag, fn_getter, shapes, pre=None, units=(), native=None, tiers=(
       n = len(names)
       return jax.jvp(fn, tuple(args[:n]), tuple(args[n:]))
     I = Interp(A)
-    out = sym_call(I, f, *[Sym(prim[nm]) for nm in names], *[Sym(tang[nm]) for nm in names])
+    from verif.engine.alg import Unsupported
+    try:
+      out = sym_call(I, f, *[Sym(prim[nm]) for nm in names], *[Sym(tang[nm]) for nm in names])
+    except Unsupported as ex:
+      if 'division by the constant 0' not in str(ex):
+        raise
+      return [], [False], (lambda w: dict(native() if native else {'reproduced': False}, derivative_program='division by the constant 0'))
     if I.concrete_nans:
       return [], [False], (lambda w: dict(native() if native else {'reproduced': False}, derivative_program_nan_at=I.concrete_nans[:3]))
     P = []
@@ -236,7 +242,9 @@ def zero_angle_defined(word, frame):
     from verif.engine.alg import Unsupported
     try:
       sym_call(I, lambda a, b, c: jax.jvp(f, (a, rot0), (b, c)), Sym(p), Sym(dp), Sym(dr))
-    except Unsupported:
+    except Unsupported as ex:
+      if 'division by the constant 0' in str(ex):          # a symbolic tangent divided by a concrete zero: the failed side condition itself
+        return [], [False], (lambda w: dict(_native_zero(word, axes), derivative_program='division of a tangent by the constant 0'))
       if not I.concrete_nans:
         raise
     if I.concrete_nans:
